@@ -606,6 +606,20 @@ func main() {
 		}
 	}
 	wg.Wait()
+	for _, tr := range [][]string{{"websocket"}, {"polling"}, {"polling", "websocket"}} {
+		for _, how := range []string{"refused", "client-disconnect", "server-disconnect"} {
+			for _, d := range []time.Duration{150 * time.Millisecond, 400 * time.Millisecond} {
+				wg.Add(1)
+				sem <- struct{}{}
+				go func(tr []string, how string, d time.Duration) {
+					defer wg.Done()
+					defer func() { <-sem }()
+					runPendingWhileOtherEnds(run, tr, how, d)
+				}(tr, how, d)
+			}
+		}
+	}
+	wg.Wait()
 	// admission window: unforced, then widened through the hook (sequential: the hook is process-global)
 	runAdmissionWindow(run, "websocket", 0, run.Pick(1500, 15000))
 	runAdmissionWindow(run, "polling", 0, run.Pick(400, 4000))
